@@ -136,7 +136,7 @@ def gen_closed_claim(rng, crash):
         # the application is busy: the events raised by the claim are still unhandled at the crash
         ops.append("evhold %d on" % crash)
     ops.append("claim %d 0" % dst)
-    ops += ["dany 0"] * rng.range(1, 4)
+    ops += ["dany 0"] * rng.range(2, 6)
     first = peer if crash == 1 else 1
     idx = {0: 0, 2: 1, 3: 2}[first] if crash == 1 else 0
     ops.append("fc %d %d" % (crash, idx) if rng.chance(1, 2) else "dany 0")
@@ -291,7 +291,8 @@ def judge(r):
                     bad("stale", "chan %s: post-close update ids not consecutive: %s" % (chan, [u[0] for u in ups]))
         else:
             st["resumed_channels"] += 1
-            if chan in outdated:
+            # (a second crash on the same manager bytes may find the channel stale by then: the monitors moved on)
+            if chan in outdated and not (r.get("recrash_mode") == 2 and a and a["open"]):
                 bad("stale", "chan %s: manager at update %d is not older than its monitor at %d but the channel was closed as OutdatedChannelManager" % (chan, s["mgr_latest"], s["mon"]))
             want = max([s["mon"]] + [i for i in s["mgr_inflight"]])
             st["replayed_updates"] += len([i for i in s["mgr_inflight"] if i > s["mon"]])
